@@ -275,5 +275,5 @@ Definition up_node (d : bdesign) (n : bnode) : bnode :=
       | Ok m => let ie := up_elem m (i, e) in NBPort (up_path d p) (fst ie) (snd ie) port mp k
       | Error _ => n
       end
-  | NBNc p s k => NBNc (up_path d p) s k
+  | NBNc p s k => n
   end.
